@@ -1,26 +1,124 @@
 (* C20 — Event stream subscribers get every event once, in publish order.
-   Statements only; models in C20/Model.v (internal/queue) and C20/Stream.v (eventstream),
-   proofs in C20/Proofs.v. *)
-From Coq Require Import List Arith Bool ZArith.
+   Statements only. Models: C20/Model.v (internal/queue/queue.go at atomic-step granularity; rc = true
+   is the queue whose nodes are recycled through sync.Pool, rc = false the queue that never recycles
+   a node, i.e. fixes/C20-queue-no-node-recycling.diff) and C20/Stream.v (eventstream.go +
+   subscriber.go at critical-section granularity). Proofs: C20/Proofs.v, Conc.v, Once.v,
+   StreamProofs.v. checks/C20.py decides on every run, from the behaviour of the instrumented real
+   code, which of the two queue shapes the tree has and replays its runs through that model. *)
+From Coq Require Import List Arith Bool ZArith Permutation Sorted.
 Import ListNotations.
-From GV Require Import C20.Model C20.Proofs.
+From GV Require Import C20.Model C20.Stream C20.Proofs C20.Conc C20.Once C20.StreamProofs.
 
-(* The queue as it exists (nodes recycled through sync.Pool, rc = true) loses an event: there is a
-   schedule of four threads after which both Enqueue calls have returned, one value has been
-   dequeued, and a Dequeue that starts afterwards finds the queue empty. Replayed on the real code
-   by checks/C20.py (corpus schedule W1). *)
+(* ================================================================ the queue with recycled nodes *)
+
+(* It loses an event: a schedule of four threads after which both Enqueue calls have returned, one
+   value has been dequeued, and a Dequeue that starts afterwards finds the queue empty while the
+   length counter says one. (Corpus schedule W1, replayed on the real code on every run.) *)
 Theorem C20_pool_aba_refuted : exists progs sc,
   let s := run true (init progs) sc in
   all_done s 4 = true /\ enq_log s = [1; 2] /\
   thread_results s 4 = [[]; [RVal 1 1]; []; [RNone]] /\ contents s = [] /\ qlen s = 1%Z.
 Proof. exists w1_progs, w1_sched. exact pool_aba_witness. Qed.
 
-(* ... and a Dequeue can return nil for an element it has removed (W2). *)
+(* A Dequeue can return nil for an element it has removed (W2). *)
 Theorem C20_pool_value_cleared_refuted : exists progs sc,
   let s := run true (init progs) sc in
   all_done s 3 = true /\ enq_log s = [1; 2] /\
   thread_results s 3 = [[]; [RNil 1]; [RVal 2 2]] /\ contents s = [].
 Proof. exists w2_progs, w2_sched. exact pool_value_cleared_witness. Qed.
 
+(* ================================================================ the queue that never recycles *)
+(* For every set of thread programs, every interleaving of their atomic steps, any length
+   ([reach]: an inductive closure, no bound). Guard of the `_partial` names: rc = false. *)
+
+(* FIFO at the linearization points: the values taken by successful head CASes, in CAS order, are
+   exactly a prefix of the values linked, in link order — none lost, duplicated or reordered. *)
+Theorem C20_queue_fifo_partial : forall progs s,
+  reach progs s -> deq_log s = map Some (firstn (length (deq_log s)) (enq_log s)).
+Proof. exact conc_fifo. Qed.
+
+(* What a Dequeue call returns is the value of its own linearization point, never nil. *)
+Theorem C20_queue_results_partial : forall progs s tid r,
+  reach progs s -> In r (results (threads s tid)) ->
+  match r with
+  | RVal k v => 1 <= k <= length (deq_log s) /\ nth_error (enq_log s) (k - 1) = Some v
+  | RNil _ => False
+  | _ => True
+  end.
+Proof. exact conc_results. Qed.
+
+(* Exactly once: at quiescence the values returned by all Dequeue calls are a permutation of the
+   values taken at the linearization points (with the theorem above: of a prefix of the values
+   enqueued). *)
+Theorem C20_queue_exactly_once_partial : forall progs s,
+  reach progs s -> quiescent s (length progs) ->
+  Permutation (flat_map (fun tid => flat_map v_res (results (threads s tid))) (seq 0 (length progs)))
+              (firstn (length (deq_log s)) (enq_log s)).
+Proof. exact returned_values. Qed.
+
+(* "Empty" is reported only at an instant at which every linked value has been taken. *)
+Theorem C20_queue_empty_partial : forall progs s tid h,
+  reach progs s -> tpc (threads s tid) = PDeqLoadNext h -> nnext (nodes s h) = None ->
+  length (deq_log s) = length (enq_log s).
+Proof. exact conc_empty. Qed.
+
+(* Per-producer order: what a thread has linked so far (in link order), then what it is linking,
+   then the Enqueue calls left in its program, is its original sequence of Enqueue calls. *)
+Theorem C20_queue_producer_order_partial : forall progs s tid,
+  reach progs s ->
+  linked_by s tid ++ pending s (tpc (threads s tid)) ++ enq_vals (prog (threads s tid))
+  = enq_vals (nth tid progs []).
+Proof. exact conc_program_order. Qed.
+
+(* ================================================================ the stream layer *)
+(* For every interleaving of the stream's atomic actions (any number of publishers, subscribers,
+   topics, drainers). A subscriber's queue is an atomic FIFO here — which is what the theorems above
+   establish for the non-recycling queue. [have st s] = everything ever enqueued for s. *)
+
+(* Per publisher, the events a subscriber receives carry strictly increasing publish sequence
+   numbers: publish order is kept ... *)
+Theorem C20_stream_publish_order : forall st s p,
+  sreach st -> StronglySorted lt (seqs_of p (have st s)).
+Proof. exact stream_in_order. Qed.
+
+(* ... and no event is received twice. *)
+Theorem C20_stream_at_most_once : forall st s, sreach st -> NoDup (have st s).
+Proof. exact stream_at_most_once. Qed.
+
+(* Once Publish has returned, every subscriber that was in the topic's set when the publish took its
+   snapshot and is still active has the event. *)
+Theorem C20_stream_delivered : forall st m snap s,
+  sreach st -> In (m, snap) (snaplog st) -> In s snap ->
+  ppend st (mpub m) = None -> sa (ssubs st s) = true -> In m (have st s).
+Proof. exact stream_complete. Qed.
+
+(* An event reaches only subscribers of the snapshot taken for it, and that snapshot is the topic's
+   subscriber set at one instant of the run, at which the publish began. *)
+Theorem C20_stream_only_subscribers : forall st s m,
+  sreach st -> In m (have st s) ->
+  exists snap, In (m, snap) (snaplog st) /\ In s snap /\
+  exists st0, sreach st0 /\ ppend st0 (mpub m) = None /\ snap = tmap st0 (mtopic m).
+Proof.
+  intros st s m H Hin. destruct (stream_only_snapshot st s m H Hin) as (snap & A & B).
+  exists snap. repeat split; auto.
+  destruct (stream_snapshot_instant st m snap H A) as (st0 & X & Y & Z & _). exists st0. auto.
+Qed.
+
+(* After Unsubscribe's map update, and until a Subscribe update for the same subscriber and topic,
+   the subscriber is in no snapshot of that topic: publishes that begin then never reach it. *)
+Theorem C20_stream_unsubscribed_stays_out : forall st ls s t,
+  ~ In (SMapAdd s t) ls -> ~ In s (tmap (srun (sstep st (SMapDel s t)) ls) t).
+Proof. intros st ls s t H. apply stream_stays_out; auto. apply stream_unsubscribed. Qed.
+
 Print Assumptions C20_pool_aba_refuted.
 Print Assumptions C20_pool_value_cleared_refuted.
+Print Assumptions C20_queue_fifo_partial.
+Print Assumptions C20_queue_results_partial.
+Print Assumptions C20_queue_exactly_once_partial.
+Print Assumptions C20_queue_empty_partial.
+Print Assumptions C20_queue_producer_order_partial.
+Print Assumptions C20_stream_publish_order.
+Print Assumptions C20_stream_at_most_once.
+Print Assumptions C20_stream_delivered.
+Print Assumptions C20_stream_only_subscribers.
+Print Assumptions C20_stream_unsubscribed_stays_out.
